@@ -84,19 +84,26 @@ fn quiescent_check(index: &Index, mon: &MonDir, what: &str) -> Vec<(String, Valu
 }
 
 /// `quiescent_check`, re-running GC (bounded, with back-off) while the only discrepancy is a
-/// set of files written by a merge thread: a merge thread of a rolled-back / dropped writer keeps
-/// its segment registered in the index inventory until it has returned, which nothing in the API
-/// or on the directory lets the harness observe ("merges have finished" is only reached then).
-/// A permanent leak survives the retries and is reported.
+/// set of orphan files: a thread that is about to exit (merge thread of a rolled-back / dropped
+/// writer, or one that has just handed its result over) keeps segments registered in the index
+/// inventory until it has returned, which nothing in the API or on the directory lets the
+/// harness observe ("merges have finished" is only reached then) - GC rightly keeps their files.
+/// A permanent leak survives the retries (<= 4.3 s) and is reported.
 fn quiescent_check_settled(ex: &Exec, mon: &MonDir, what: &str, rep: &mut Report) -> Vec<(String, Value)> {
     let mut errs = quiescent_check(&ex.index, mon, what);
     for wait_ms in [2u64, 10, 50, 200, 1000, 3000] {
-        let only_finishing_merge = !errs.is_empty()
-            && errs.iter().all(|(s, d)| s.starts_with("quiescent:orphan-files:") && d["all_merge_created"] == json!(true));
-        if !only_finishing_merge {
+        // orphan files only (nothing missing, .managed.json consistent): some thread that has
+        // just finished (merge thread, indexing worker of a replaced writer) may still hold the
+        // segment in the index inventory for a moment
+        let only_orphans = !errs.is_empty() && errs.iter().all(|(s, _)| s.starts_with("quiescent:orphan-files:"));
+        if !only_orphans {
             break;
         }
-        rep.count("quiescent_recheck_for_finishing_merge_thread", 1);
+        let by_merge = errs.iter().all(|(_, d)| d["all_merge_created"] == json!(true));
+        rep.count(
+            if by_merge { "quiescent_recheck_for_finishing_merge_thread" } else { "quiescent_recheck_for_files_of_segments_still_in_the_inventory" },
+            1,
+        );
         std::thread::sleep(std::time::Duration::from_millis(wait_ms));
         if let Some(w) = ex.writer.as_ref() {
             let _ = w.garbage_collect_files().wait();
